@@ -322,6 +322,12 @@ Plan make_plan(const Profile &prof, uint64_t seed) {
       Op o = random_op(r, pf, en);
       attach_faults(r, o, fault_pct);
       prog.push_back(o);
+      if (!o.faults.empty() && r.below(3) == 0) {
+        // the caller retries the failed call (same operation, no fault)
+        Op retry = o;
+        retry.faults.clear();
+        prog.push_back(retry);
+      }
     }
     total_ops += prog.size();
     p.progs.push_back(prog);
